@@ -408,7 +408,7 @@ func c18ExploreForPanics(c *Ctx) {
 
 func checkC18(c *Ctx) {
 	defer c18ExploreForPanics(c)
-	c.Rule = "structure-aware mutation (field deletion, null, type confusion, negative/huge integers, empty/oversized/duplicated arrays, invalid/truncated/bit-flipped byte strings, hostile nested JSON inside byte fields, unknown events, short/unknown/huge round ids) of (A) every genuine board message, re-signed with the sender's real key and applied to every consuming node in the exact state in which it consumes the genuine one, plus unauthenticated openers; (B) every genuine operation fed to a replay-built clone of the airgapped machine at that step; (C) the JSON bodies of the local HTTP API served by the real router. Each part runs in a child process that logs the case before executing it; panics are caught with recover(), process death is attributed to the last logged case. Oracles: no panic / no process death; error => byte-identical durable state (node store minus offset; machine database). (D) the C05 exploration of the public alphabet (every event x participant ids incl. uninvited x variants in every reachable state, n=2) with the no-panic oracle, on an ordinary node and on one started with --skip_comm_keys_verification. distinct = distinct (part, event or operation type or endpoint, state, mutation class)"
+	c.Rule = "structure-aware mutation (field deletion, null, type confusion, negative/huge integers, empty/oversized/duplicated arrays, invalid/truncated/bit-flipped byte strings, hostile nested JSON inside byte fields, unknown events, short/unknown/huge round ids) of (A) every genuine board message, re-signed with the sender's real key and applied to every consuming node in the exact state in which it consumes the genuine one, plus unauthenticated openers; (B) every genuine operation fed to a replay-built clone of the airgapped machine at that step; (C) the JSON bodies of the local HTTP API served by the real router. Each part runs in a child process that logs the case before executing it; panics are caught with recover(), process death is attributed to the last logged case. Oracles: no panic / no process death; error => byte-identical durable state (node store minus offset; machine database). (D) the C05 exploration of the public alphabet (every event x participant ids incl. uninvited x variants in every reachable state, n=2) with the no-panic oracle, on an ordinary node and on one started with --skip_comm_keys_verification. Machine calls run in a goroutine of their own: parked on a mutex with an unchanged stack for 60 samples = the call never returns (violation). distinct = distinct (part, event or operation type or endpoint, state, mutation class)"
 	c.Assumptions = []string{"MemState for the node store in part A and C", "machine clones are built by copying the database and replaying its operation log", "Go native fuzzing was used during development only (not seedable)"}
 	exe, _ := os.Executable()
 	type job struct{ part, kind string }
